@@ -83,4 +83,8 @@ var Map zconst.LangMap = map[zconst.ZogType]map[zconst.ZogIssueCode]string{
 		zconst.IssueCodeZHTTPInvalidForm:  "invalid form data",
 		zconst.IssueCodeZHTTPInvalidQuery: "invalid query params",
 	},
+	// schemas made with z.CustomFunc (their issues carry the type "custom")
+	"custom": {
+		zconst.IssueCodeFallback: "is invalid",
+	},
 }
